@@ -16,14 +16,15 @@
    (2) the scanner's pending string buffer (front/scanner.l `string * string_value`, a file-level
        static).  The opening quote allocates it, characters are appended, the closing quote hands it to
        the token and sets it to NULL, every error rule inside a literal frees it and sets it to NULL —
-       but the <<EOF>> rule does nothing: a compile whose input ends inside a literal leaves the text
-       behind.  The start condition itself is reset (scanner_destroy -> yylex_destroy) so the next
-       compile starts outside a literal.  Policy: does the opening-quote rule allocate ALWAYS
-       (pinned tree) or only `if (string_value == NULL)`?
+       but the end of the input may do nothing: then a compile whose input ends inside a literal leaves
+       the text behind.  The start condition itself is reset (scanner_destroy -> yylex_destroy) so the
+       next compile starts outside a literal.  Policy: does the opening-quote rule allocate ALWAYS or
+       only `if (string_value == NULL)` (alloc_always), and is there a <C_STRING><<EOF>> rule that frees
+       the buffer (eof_frees: no before /repo a3bcc72, yes since)?
 
    The theorems (ApiGlobalProofs.v) say: the outcomes of compiles and calls do not depend on this state
-   PROVIDED each operation re-initialises what it reads — TESTED ⊆ CLEARED, allocate always — and that
-   these two hypotheses are necessary.  The correspondence run of checks/c15.py checks exactly them on
+   PROVIDED each operation re-initialises what it reads — TESTED ⊆ CLEARED; allocate always, or never
+   leave a buffer pending — and that these hypotheses are necessary.  The correspondence run of checks/c15.py checks exactly them on
    the real code: the host raises each flag (`fpraise`) / a compile ends inside a literal, then the
    observers run and are compared with a fresh process. *)
 From Coq Require Import List Bool.
@@ -90,15 +91,17 @@ Inductive ev :=
 
 Definition buffer := option (list nat).      (* string_value: NULL or the text collected so far *)
 
-Record scan_policy := { alloc_always : bool }.
-Definition pinned_scan := {| alloc_always := true |}.
-Definition guarded_scan := {| alloc_always := false |}.   (* seeded change C15-6 *)
+Record scan_policy := { alloc_always : bool; eof_frees : bool }.
+Definition pinned_scan := {| alloc_always := true; eof_frees := false |}.    (* the tree before a3bcc72 *)
+Definition current_scan := {| alloc_always := true; eof_frees := true |}.    (* ... since a3bcc72 *)
+Definition guarded_scan := {| alloc_always := false; eof_frees := false |}.  (* seeded change C15-6 on the former *)
+Definition guarded_eof_scan := {| alloc_always := false; eof_frees := true |}. (* ... on the latter: harmless *)
 
 (* one compile: pending buffer on entry -> (the string literals handed to the parser, pending buffer at
    the end).  `inlit` is the start condition; it starts false in every compile (yylex_destroy). *)
 Fixpoint scan (pol : scan_policy) (pend : buffer) (inlit : bool) (evs : list ev) : list (list nat) * buffer :=
   match evs with
-  | [] => ([], pend)                                  (* <<EOF>>: nothing is freed *)
+  | [] => ([], if inlit && eof_frees pol then None else pend)     (* <<EOF>> / <C_STRING><<EOF>> *)
   | Quote :: evs' =>
       if inlit then
         let '(ls, q) := scan pol None false evs' in
@@ -151,4 +154,4 @@ Fixpoint grun (fp : fp_policy) (sp : scan_policy) (p : process) (os : list gop) 
 
 (* the hypothesis under which the process state cannot be observed *)
 Definition reinitialises (fp : fp_policy) (sp : scan_policy) : bool :=
-  fl_sub (tested fp) (cleared fp) && alloc_always sp.
+  fl_sub (tested fp) (cleared fp) && (alloc_always sp || eof_frees sp).
